@@ -219,7 +219,8 @@ mk('C14', ['TopK','AllocProofs','SplitProofs'], [lifted('C14_labels_only','Split
 mk('C15', ['MemoCoh','SchedProofs'], [lifted('C15_memo_warm_planC','MemoCoh','memo_warm_planC','the memoised planner as the extracted iterator uses it (cache warmed by an arbitrary earlier call) returns the canonical plan for every sub-problem'),
    lifted('C15_memoS_total','MemoCoh','memoS_total','with enough fuel a call succeeds from any coherent cache'),lifted('C15_cache_coherent','MemoCoh','C15_cache_coherent','every cache reachable by any sequence of calls holds only correct entries'),
    lifted('C15_history_independent','MemoCoh','C15_history_independent','a successful call returns the pure value whatever the call history')])
-mk('C16', ['TabEq','TabSim','MemoCoh'], [lifted('C16_tabulate_planC','TabSim','tabulate_planC','the extracted tabulated planner (list of lists, as the numpy array) succeeds and every entry is the canonical plan'),
+mk('C16', ['TabEq','TabSim','MemoCoh','MixPaths'], [lifted('C16_streams_equal','MixPaths','mixed_paths_same_stream','STREAMS: on the extracted model the whole monitored run of MixedCheckpointSchedule -- every outcome, every observation (n, r, max_n, flags, uses_storage_type) and the executor state -- is the same on the tabulated path (tab = true) and on the memoised path (tab = false), for every N, unit count, storage and number of requests'),
+   lifted('C16_tabulate_planC','TabSim','tabulate_planC','the extracted tabulated planner (list of lists, as the numpy array) succeeds and every entry is the canonical plan'),
    lifted('C16_memo_warm_planC','MemoCoh','memo_warm_planC','... and so is every answer of the extracted memoised planner: the two paths prescribe the same kind, length and cost'),lifted('C16_table','TabEq','C16_table','the tabulated planner never fails an assertion and every entry equals the memoised planner')])
 C17_complete = '''(* valid parameters yield a complete stream: the run theorems, which have no hypothesis beyond the documented domain
    (degenerate cases max_n = 1 and more units than steps included); the streams end with EndReverse by C09_flags + termination *)
